@@ -1,6 +1,9 @@
 //! Suite `html` (C19): `xot.html5().serialize_string / serialize_write` on generated trees ×
 //! parameter sets.  The transcript lines are compared with the Lean model (`html string`,
 //! `html write`); the oracle of `html_oracle.rs` evaluates the property on the implementation.
+//! `html write_fail <k> …`: `serialize_write` into `common::FailingWriter { fail_at_call: k }` — outcome
+//! (`err:Io` at the refused call, never `panic`) and the bytes the writer holds, compared with the model
+//! (`serializeHtmlWriteW (budget k)`); oracle `common::failing_writer_verdict`.
 use crate::common::{enc, guarded, Rng, Sink};
 use crate::html_gen::*;
 use crate::html_oracle::*;
@@ -13,6 +16,59 @@ use xot::{Error, Xot};
 
 thread_local! {
     static EMITTED: RefCell<HashMap<String, usize>> = RefCell::new(HashMap::new());
+    /// rotates the budget class of the failing-writer cases
+    static IO_ROT: std::cell::Cell<u64> = std::cell::Cell::new(0);
+}
+
+/// One `serialize_write` into a `FailingWriter`: budget, its class, the wire outcome, the bytes the writer holds,
+/// the implementation-only verdict, and whether the never-failing run ends in a serialisation error.
+struct IoCase {
+    k: usize,
+    class: &'static str,
+    shown: String,
+    held: String,
+    verdict: Option<(&'static str, String)>,
+    reference_fails: bool,
+    calls: usize,
+}
+
+fn shown_res(r: &Res) -> String {
+    match r {
+        Res::Ok(_) => "ok".to_string(),
+        Res::Err(e, _) => e.clone(),
+        Res::Panic => "panic".to_string(),
+    }
+}
+
+/// `serialize_write` of `h` into writers that fail at chosen calls.
+fn failing_writer_cases(h: &xot::Html5, hv: &HVocab, p: &HParams, start: xot::Node) -> Vec<IoCase> {
+    use crate::common::{failing_writer_verdict, pick_budget, FailingWriter};
+    let mut rec = FailingWriter::counting();
+    let w0 = res_of(guarded(|| h.serialize_write(to_params(hv, p), start, &mut rec).map(|_| String::new())));
+    let w0s = shown_res(&w0);
+    let w0k = w0s.split(' ').next().unwrap().to_string();
+    let n = rec.calls;
+    let rot = IO_ROT.with(|c| {
+        let v = c.get();
+        c.set(v + 1);
+        v
+    });
+    let reference_fails = matches!(w0, Res::Err(..));
+    let mut ks = vec![pick_budget(n, rot)];
+    if reference_fails {
+        ks.push((n.saturating_sub(1), "just-before-the-serialisation-error"));
+        ks.push((n, "up-to-the-serialisation-error"));
+    }
+    ks.into_iter()
+        .map(|(k, class)| {
+            let mut fw = FailingWriter::new(k);
+            let r = res_of(guarded(|| h.serialize_write(to_params(hv, p), start, &mut fw).map(|_| String::new())));
+            let shown = shown_res(&r);
+            let rk = shown.split(' ').next().unwrap().to_string();
+            let verdict = failing_writer_verdict(&rk, &fw, &w0k, &rec);
+            IoCase { k, class, shown, held: String::from_utf8_lossy(&fw.data).to_string(), verdict, reference_fails, calls: n }
+        })
+        .collect()
 }
 
 #[derive(Clone, Debug)]
@@ -340,7 +396,7 @@ pub fn run_tree_with(mk: fn(&mut Xot) -> HVocab, t: &GTree, start_path: &[usize]
     ));
     element_stats(sub, &hv, sink);
     // everything that reads the Xot happens before `html5()` borrows it mutably
-    let results: Vec<(Res, Res, String, bool)> = {
+    let results: Vec<(Res, Res, String, bool, Vec<IoCase>)> = {
         let h = xot.html5();
         params
             .iter()
@@ -352,12 +408,29 @@ pub fn run_tree_with(mk: fn(&mut Xot) -> HVocab, t: &GTree, start_path: &[usize]
                 let mut cw = crate::common::ChunkWriter::new(1 + buf.len() % 3);
                 let w2 = res_of(guarded(|| h.serialize_write(to_params(&hv, p), start, &mut cw).map(|_| String::new())));
                 let short_ok = !(matches!(w, Res::Ok(_)) && matches!(w2, Res::Ok(_))) || cw.data == buf;
-                (s, w, String::from_utf8_lossy(&buf).to_string(), short_ok)
+                let io = failing_writer_cases(&h, &hv, p, start);
+                (s, w, String::from_utf8_lossy(&buf).to_string(), short_ok, io)
             })
             .collect()
     };
     let tree_wire = format!("{} {}", path_str(start_path), t.wire());
-    for (p, (s, w, written, short_ok)) in params.iter().zip(results.iter()) {
+    for (p, (s, w, written, short_ok, io)) in params.iter().zip(results.iter()) {
+        // a writer that fails: outcome and the bytes it holds are compared with the model
+        // (`serializeHtmlWriteW (budget k)`); oracle: Err(Io), never a panic, a prefix of the never-failing run
+        for c in io {
+            sink.emit(format!("html write_fail {} {} {}", c.k, p.wire(), tree_wire), format!("{} {}", c.shown, enc(&c.held)));
+            let rk = c.shown.split(' ').next().unwrap();
+            sink.stat(&format!("io.budget.{}", c.class));
+            sink.stat(&format!("io.calls.{}", match c.calls { 0 => "0", 1..=4 => "1-4", 5..=20 => "5-20", 21..=80 => "21-80", _ => "81+" }));
+            sink.stat(&format!("io.outcome.{}", if rk == "ok" || rk == "err:Io" || rk == "panic" { rk } else { "serialisation-error" }));
+            if c.reference_fails {
+                sink.stat(&format!("io.priority.{}-wins", if rk == "err:Io" { "Io" } else { "serialisation-error" }));
+            }
+            match &c.verdict {
+                Some((sig, what)) => fail(sink, &Finding { signature: format!("C19:{}", sig), what: format!("serialize_write: {}", what) }, t, start_path, p, &Res::Err(c.shown.clone(), None)),
+                None => sink.stat("oracle.C19.failing-writer-ok"),
+            }
+        }
         if !*short_ok {
             fail(sink, &Finding { signature: "C19:write-loses-bytes-on-short-writing-sink".to_string(), what: "serialize_write into a sink that accepts a few bytes per call delivers other bytes than into a Vec".to_string() }, t, start_path, p, s);
         }
